@@ -102,6 +102,31 @@ func c03Variants() []c03Case {
 	add("receipt/dest-happy-rule/proof-absent", preReqToB, func(pw *preWorld) (pb.Transaction, bool, bool) {
 		return c03IBTP(fix.KB, rcB, nil, nil)(pw), false, true
 	})
+	// master rule update of chain W (WASM true/false rule -> accept-all rule), rejected or
+	// approved, after a request to W was accepted: the receipt is verified against the
+	// rule that is master AFTER the proposal concluded
+	ruleUpdate := func(verdict string) func(pw *preWorld) {
+		return func(pw *preWorld) {
+			preReqToW(pw)
+			res := pw.w.Must(pw.w.Block(pw.w.InvokeTx(fix.KW, constant.RuleManagerContractAddr, "UpdateMasterRule", pb.String(fix.ChainW), pb.String("0x00000000000000000000000000000000000000a2"), pb.String("r"))))
+			id := fix.ProposalID(res.Receipts[0])
+			for i := 0; i < 3; i++ {
+				pw.w.Block(pw.w.VoteTx(i, id, verdict))
+			}
+		}
+	}
+	add("receipt/dest-rule-update-rejected/plain-false", ruleUpdate("reject"), func(pw *preWorld) (pb.Transaction, bool, bool) {
+		return c03IBTP(fix.KW, rcW, sha([]byte("False")), []byte("False"))(pw), false, true
+	})
+	add("receipt/dest-rule-update-rejected/true", ruleUpdate("reject"), func(pw *preWorld) (pb.Transaction, bool, bool) {
+		return c03IBTP(fix.KW, rcW, sha(good), good)(pw), true, true
+	})
+	add("receipt/dest-rule-update-approved/any-proof-now-accepted", ruleUpdate("approve"), func(pw *preWorld) (pb.Transaction, bool, bool) {
+		return c03IBTP(fix.KW, rcW, sha([]byte("False")), []byte("False"))(pw), true, true
+	})
+	add("receipt/dest-rule-update-approved/hash-mismatch", ruleUpdate("approve"), func(pw *preWorld) (pb.Transaction, bool, bool) {
+		return c03IBTP(fix.KW, rcW, sha([]byte("zz")), []byte("False"))(pw), false, true
+	})
 	// appchain logged out: its rules are gone
 	preLogoutA := func(pw *preWorld) {
 		res := pw.w.Must(pw.w.Block(pw.w.InvokeTx(fix.KA, constant.AppchainMgrContractAddr, "LogoutAppchain", pb.String(fix.ChainA), pb.String("r"))))
@@ -312,7 +337,7 @@ func init() {
 	Registry["C03"] = func(c *mc.Ctx) {
 		c.RunSharded("c03")
 		c.Set("distinct_nontrivial", c.Get("unverified_ibtps"))
-		c.Set("rule", "product of 36 (origin, rule, proof) variants — local request under an accept-all rule / a rule that errors / a deployed WASM rule answering plain true or false, receipts checked against the destination chain's rule, unregistered and logged-out origins, remote BitXHub with 0..4 distinct registered signers, duplicates, unregistered signers, signatures over another status or IBTP, garbage proof bytes — x block position {alone, first, last} x proof checking {serial, parallel}; each decided differentially (block with / without the IBTP); plus all sequences of <=2 direct invocations of the interchain contract's IBTP-handling entry points by an outsider (before and after a valid request; audit off/on); non-trivial = proof not satisfying the predicate")
+		c.Set("rule", "product of 40 (origin, rule, proof) variants (incl. a master-rule update of the destination chain, rejected or approved, before the receipt) — local request under an accept-all rule / a rule that errors / a deployed WASM rule answering plain true or false, receipts checked against the destination chain's rule, unregistered and logged-out origins, remote BitXHub with 0..4 distinct registered signers, duplicates, unregistered signers, signatures over another status or IBTP, garbage proof bytes — x block position {alone, first, last} x proof checking {serial, parallel}; each decided differentially (block with / without the IBTP); plus all sequences of <=2 direct invocations of the interchain contract's IBTP-handling entry points by an outsider (before and after a valid request; audit off/on); non-trivial = proof not satisfying the predicate")
 		c.Assume("the WASM rule is assembled from WAT with wasmtime's own assembler (start_verify returns proof[0]=='T'); SimFabric built-in rule stands for 'rule returns error'")
 		if c.Get("unverified_ibtps") == 0 || c.Get("verified_ibtps") == 0 {
 			c.HarnessError("vacuous")
